@@ -107,10 +107,15 @@ theorem lastD_mem (s0 : Sqlite.St D) (h : List (Sqlite.St D)) : lastD s0 h ∈ s
   | none => simp
   | some x => simp [List.mem_of_getLast? hh]
 
+/-- `insert_many` raises (from its bulk INSERT) exactly when the bucket does not exist and there is
+    an id-less event; its UPDATEs then matched no row -/
+def bulkFails (s : Sqlite.St D) (b : String) (es : List (Ev D)) : Bool :=
+  (Sqlite.rowOf s b).isNone && !(es.filter (fun e => e.id.isNone)).isEmpty
+
 /-- the connection states produced by the ELEMENTARY writes of one operation started in `s`, in
     issue order: one per executed statement that may change a table (an event write whose WHERE
     clause matches nothing contributes the unchanged state); statements that raise contribute
-    nothing; `insert_many` contributes one state per upsert and one per inserted row;
+    nothing; `insert_many` contributes one state per upsert and one per inserted row (none when it raises);
     `delete_bucket` contributes its result state. -/
 def elems (s : Sqlite.St D) : COp D → List (Sqlite.St D)
   | .createBucket _ b m => match Sqlite.createBucket s b m with | .ok s' => [s'] | .error _ => []
@@ -119,6 +124,7 @@ def elems (s : Sqlite.St D) : COp D → List (Sqlite.St D)
   | .insertOne _ b e => match Sqlite.insertOne s b e with | .ok (s', _) => [s'] | .error _ => []
   | .insertMany _ b es =>
     let ups := es.filter (fun e => e.id.isSome)
+    if bulkFails s b es then [] else
     upsertStates s b ups ++ rowStates (lastD s (upsertStates s b ups)) b (es.filter (fun e => e.id.isNone))
   | .replace _ b i e => [Sqlite.replace s b i e]
   | .replaceLast _ b e => [Sqlite.replaceLast s b e]
@@ -182,14 +188,15 @@ theorem Pre.wroteB_commit {s0 : Sqlite.St D} {h c} (_p : Pre s0 h c) (s : Sqlite
 
 /-- the upsert loop of `insert_many` -/
 def upserts (c : CSt D) (now : Int) (b : String) (ups : List (Ev D)) : CSt D :=
-  ups.foldl (fun c e => Commit.replace c now b (e.id.getD 0) e) c
+  Commit.upsertRows c now b ups
 
 @[simp] theorem upserts_nil (c : CSt D) (now : Int) (b : String) : upserts c now b [] = c := rfl
 @[simp] theorem upserts_cons (c : CSt D) (now : Int) (b : String) (e : Ev D) (es : List (Ev D)) :
-    upserts c now b (e :: es) = upserts (Commit.replace c now b (e.id.getD 0) e) now b es := rfl
+    upserts c now b (e :: es) =
+      upserts (Commit.wrote c (Sqlite.replace c.cur b (e.id.getD 0) e) now) now b es := rfl
 
 /-- the state in the middle of `insert_many`: after the upserts and the bulk INSERT, before the
-    final `conditional_commit(len(rows))` -/
+    single `conditional_commit(len(upserts) + len(rows))` -/
 def insertManyMid (c : CSt D) (now : Int) (b : String) (es : List (Ev D)) : CSt D :=
   (Commit.insertRows (upserts c now b (es.filter (fun e => e.id.isSome))) now b
     (es.filter (fun e => e.id.isNone))).2
@@ -205,28 +212,244 @@ theorem insertRows_fst (c : CSt D) (now : Int) (b : String) (rows : List (Ev D))
       simp only [Commit.insertRows, heq] at h ⊢
       exact ih _ h
 
+/-! ## the bulk INSERT of `insert_many` -/
+
+theorem insertRows_fields (c : CSt D) (now : Int) (b : String) (rows : List (Ev D)) :
+    (Commit.insertRows c now b rows).2.n = c.n ∧ (Commit.insertRows c now b rows).2.last = c.last ∧
+    (Commit.insertRows c now b rows).2.lazy = c.lazy ∧ (Commit.insertRows c now b rows).2.dur = c.dur ∧
+    (Commit.insertRows c now b rows).2.pend.length ≤ c.pend.length + rows.length ∧
+    (∀ t ∈ (Commit.insertRows c now b rows).2.pend, t = now ∨ t ∈ c.pend) := by
+  induction rows generalizing c with
+  | nil => exact ⟨rfl, rfl, rfl, rfl, by simp [Commit.insertRows], fun t ht => Or.inr ht⟩
+  | cons e es ih =>
+    cases heq : Sqlite.insertOne c.cur b e with
+    | error x =>
+      simp only [Commit.insertRows, heq]
+      exact ⟨trivial, trivial, trivial, trivial, by simp, fun t ht => Or.inr ht⟩
+    | ok si =>
+      simp only [Commit.insertRows, heq]
+      obtain ⟨h1, h2, h3, h4, h5, h6⟩ := ih (Commit.wrote c si.1 now)
+      refine ⟨h1, h2, h3, h4, ?_, ?_⟩
+      · simp [Commit.wrote] at h5 ⊢; omega
+      · intro t ht
+        have := h6 t ht
+        simpa [Commit.wrote] using this
+
+theorem insertOne_rowOf (s s' : Sqlite.St D) (b : String) (e : Ev D) (i : Int)
+    (h : Sqlite.insertOne s b e = .ok (s', i)) (b' : String) : Sqlite.rowOf s' b' = Sqlite.rowOf s b' := by
+  unfold Sqlite.insertOne at h
+  split at h
+  · simp at h
+  · simp only [Except.ok.injEq, Prod.mk.injEq] at h
+    rw [← h.1]; rfl
+
+/-- the bulk INSERT fails at its first row or not at all (the bucket row cannot vanish in between) -/
+theorem insertRows_isOk (c : CSt D) (now : Int) (b : String) (rows : List (Ev D))
+    (h : (Sqlite.rowOf c.cur b).isSome) : (Commit.insertRows c now b rows).1.isOk = true := by
+  induction rows generalizing c with
+  | nil => simp [Commit.insertRows, Except.isOk, Except.toBool]
+  | cons e es ih =>
+    cases heq : Sqlite.insertOne c.cur b e with
+    | error x =>
+      unfold Sqlite.insertOne at heq
+      split at heq
+      · rename_i hr; simp [hr] at h
+      · simp at heq
+    | ok si =>
+      simp only [Commit.insertRows, heq]
+      apply ih
+      simpa [Commit.wrote, insertOne_rowOf _ _ _ _ _ heq] using h
+
+theorem insertRows_err (c : CSt D) (now : Int) (b : String) (rows : List (Ev D))
+    (h : (Commit.insertRows c now b rows).1.isOk = false) :
+    (Commit.insertRows c now b rows).2 = { c with txn := true } := by
+  cases rows with
+  | nil => simp [Commit.insertRows, Except.isOk, Except.toBool] at h
+  | cons e es =>
+    cases hr : Sqlite.rowOf c.cur b with
+    | none => simp [Commit.insertRows, Sqlite.insertOne, hr]
+    | some r =>
+      have := insertRows_isOk c now b (e :: es) (by simp [hr])
+      simp [this] at h
+
+theorem insertRows_txn (c : CSt D) (now : Int) (b : String) (rows : List (Ev D)) :
+    (Commit.insertRows c now b rows).2 = c ∨ (Commit.insertRows c now b rows).2.txn = true := by
+  induction rows generalizing c with
+  | nil => exact Or.inl rfl
+  | cons e es ih =>
+    cases heq : Sqlite.insertOne c.cur b e with
+    | error x => simp [Commit.insertRows, heq]
+    | ok si =>
+      simp only [Commit.insertRows, heq]
+      rcases ih (Commit.wrote c si.1 now) with h | h
+      · right; rw [h]; rfl
+      · exact Or.inr h
+
+/-! ## the upsert loop and the whole statement sequence of `insert_many` -/
+
+theorem upserts_fields (c : CSt D) (now : Int) (b : String) (ups : List (Ev D)) :
+    (upserts c now b ups).n = c.n ∧ (upserts c now b ups).last = c.last ∧
+    (upserts c now b ups).lazy = c.lazy ∧ (upserts c now b ups).dur = c.dur ∧
+    (upserts c now b ups).pend.length = c.pend.length + ups.length ∧
+    (∀ t ∈ (upserts c now b ups).pend, t = now ∨ t ∈ c.pend) ∧
+    ((upserts c now b ups) = c ∨ (upserts c now b ups).txn = true) := by
+  induction ups generalizing c with
+  | nil => exact ⟨rfl, rfl, rfl, rfl, by simp, fun t ht => Or.inr ht, Or.inl rfl⟩
+  | cons e es ih =>
+    rw [upserts_cons]
+    obtain ⟨h1, h2, h3, h4, h5, h6, h7⟩ := ih (Commit.wrote c (Sqlite.replace c.cur b (e.id.getD 0) e) now)
+    refine ⟨h1, h2, h3, h4, ?_, ?_, ?_⟩
+    · simp [Commit.wrote] at h5 ⊢; omega
+    · intro t ht
+      rcases h6 t ht with h | h
+      · exact Or.inl h
+      · simp only [Commit.wrote, List.mem_cons] at h
+        rcases h with h | h
+        · exact Or.inl h
+        · exact Or.inr h
+    · right
+      rcases h7 with h | h
+      · rw [h]; rfl
+      · exact h
+
+/-- the statements of `insert_many` (upserts, then rows) change none of the commit bookkeeping -/
+theorem mid_fields (c : CSt D) (now : Int) (b : String) (ups rows : List (Ev D)) :
+    (Commit.insertRows (upserts c now b ups) now b rows).2.n = c.n ∧
+    (Commit.insertRows (upserts c now b ups) now b rows).2.last = c.last ∧
+    (Commit.insertRows (upserts c now b ups) now b rows).2.lazy = c.lazy ∧
+    (Commit.insertRows (upserts c now b ups) now b rows).2.dur = c.dur ∧
+    (Commit.insertRows (upserts c now b ups) now b rows).2.pend.length ≤ c.pend.length + (ups.length + rows.length) ∧
+    (∀ t ∈ (Commit.insertRows (upserts c now b ups) now b rows).2.pend, t = now ∨ t ∈ c.pend) := by
+  obtain ⟨u1, u2, u3, u4, u5, u6, _⟩ := upserts_fields c now b ups
+  obtain ⟨f1, f2, f3, f4, f5, f6⟩ := insertRows_fields (upserts c now b ups) now b rows
+  refine ⟨f1.trans u1, f2.trans u2, f3.trans u3, f4.trans u4, by omega, ?_⟩
+  intro t ht
+  rcases f6 t ht with h | h
+  · exact Or.inl h
+  · exact u6 t h
+
+theorem mid_txn (c : CSt D) (now : Int) (b : String) (ups rows : List (Ev D)) :
+    (Commit.insertRows (upserts c now b ups) now b rows).2 = c ∨
+    (Commit.insertRows (upserts c now b ups) now b rows).2.txn = true := by
+  rcases insertRows_txn (upserts c now b ups) now b rows with h | h
+  · rw [h]
+    exact (upserts_fields c now b ups).2.2.2.2.2.2
+  · exact Or.inr h
+
+
+/-! ### when `insert_many` raises -/
+
+theorem upserts_cur_rowOf (c : CSt D) (now : Int) (b : String) (ups : List (Ev D)) (b' : String) :
+    Sqlite.rowOf (upserts c now b ups).cur b' = Sqlite.rowOf c.cur b' := by
+  induction ups generalizing c with
+  | nil => rfl
+  | cons e es ih =>
+    rw [upserts_cons, ih]
+    simp only [Commit.wrote, Sqlite.replace]
+    split <;> rfl
+
+/-- an UPDATE addressed to a bucket that does not exist matches no row -/
+theorem upserts_missing_noop (c : CSt D) (now : Int) (b : String) (ups : List (Ev D))
+    (h : Sqlite.rowOf c.cur b = none) : (upserts c now b ups).cur = c.cur := by
+  induction ups generalizing c with
+  | nil => rfl
+  | cons e es ih =>
+    have e1 : Sqlite.replace c.cur b (e.id.getD 0) e = c.cur := by simp [Sqlite.replace, h]
+    rw [upserts_cons, ih]
+    · simp [Commit.wrote, e1]
+    · simpa [Commit.wrote, e1] using h
+
+theorem insertRows_isOk_eq (c : CSt D) (now : Int) (b : String) (rows : List (Ev D)) :
+    (Commit.insertRows c now b rows).1.isOk = !((Sqlite.rowOf c.cur b).isNone && !rows.isEmpty) := by
+  cases hr : Sqlite.rowOf c.cur b with
+  | some r => simpa using insertRows_isOk c now b rows (by simp [hr])
+  | none =>
+    cases rows with
+    | nil => simp [Commit.insertRows, Except.isOk, Except.toBool]
+    | cons e es => simp [Commit.insertRows, Sqlite.insertOne, hr, Except.isOk, Except.toBool]
+
+theorem insertMany_isOk (c : CSt D) (now : Int) (b : String) (es : List (Ev D)) :
+    (Commit.insertMany c now b es).1.isOk =
+      (Commit.insertRows (upserts c now b (es.filter (fun e => e.id.isSome))) now b
+        (es.filter (fun e => e.id.isNone))).1.isOk := by
+  have key : ∀ (k : Nat) (c0 : CSt D) (q : Except Err (CSt D) × CSt D),
+      (match q with
+        | (.error x, _) => ((.error x : Except Err (CSt D)), c0)
+        | (.ok c2, _) => (.ok (Commit.condCommit c2 k now), Commit.condCommit c2 k now)).1.isOk = q.1.isOk := by
+    rintro k c0 ⟨r, c2'⟩
+    cases r <;> simp [Except.isOk, Except.toBool]
+  exact key _ _ _
+
+/-- `insert_many` returns normally unless the bucket is missing and there is a row to insert -/
+theorem insertMany_isOk_eq (c : CSt D) (now : Int) (b : String) (es : List (Ev D)) :
+    (Commit.insertMany c now b es).1.isOk = !bulkFails c.cur b es := by
+  rw [insertMany_isOk, insertRows_isOk_eq, upserts_cur_rowOf]; rfl
+
 /-- `insert_many`, decomposed -/
 theorem insertMany_snd (c : CSt D) (now : Int) (b : String) (es : List (Ev D)) :
     (Commit.insertMany c now b es).2 =
       if (Commit.insertMany c now b es).1.isOk then
-        Commit.condCommit (insertManyMid c now b es) (es.filter (fun e => e.id.isNone)).length now
-      else insertManyMid c now b es := by
-  have key : ∀ (k : Nat) (q : Except Err (CSt D) × CSt D), (∀ c2, q.1 = .ok c2 → c2 = q.2) →
+        Commit.condCommit (insertManyMid c now b es)
+          ((es.filter (fun e => e.id.isSome)).length + (es.filter (fun e => e.id.isNone)).length) now
+      else { c with txn := true } := by
+  have key : ∀ (k : Nat) (c0 : CSt D) (q : Except Err (CSt D) × CSt D), (∀ c2, q.1 = .ok c2 → c2 = q.2) →
       (match q with
-        | (.error x, c2) => ((.error x : Except Err (CSt D)), c2)
+        | (.error x, _) => ((.error x : Except Err (CSt D)), c0)
         | (.ok c2, _) => (.ok (Commit.condCommit c2 k now), Commit.condCommit c2 k now)).2 =
       if (match q with
-        | (.error x, c2) => ((.error x : Except Err (CSt D)), c2)
+        | (.error x, _) => ((.error x : Except Err (CSt D)), c0)
         | (.ok c2, _) => (.ok (Commit.condCommit c2 k now), Commit.condCommit c2 k now)).1.isOk then
-        Commit.condCommit q.2 k now else q.2 := by
-    rintro k ⟨r, c2'⟩ hq
+        Commit.condCommit q.2 k now else c0 := by
+    rintro k c0 ⟨r, c2'⟩ hq
     cases r with
     | error x => simp [Except.isOk, Except.toBool]
     | ok c2 =>
       have := hq c2 rfl
       simp only at this
       simp [Except.isOk, Except.toBool, this]
-  exact key _ _ (insertRows_fst _ _ _ _)
+  exact key _ _ _ (insertRows_fst _ _ _ _)
+
+/-- a failing `insert_many` wrote nothing and counted nothing; a transaction is open -/
+theorem insertMany_err (c : CSt D) (now : Int) (b : String) (es : List (Ev D))
+    (h : (Commit.insertMany c now b es).1.isOk = false) :
+    (Commit.insertMany c now b es).2 = { c with txn := true } := by
+  rw [insertMany_snd, h]; rfl
+
+theorem insertMany_ok (c : CSt D) (now : Int) (b : String) (es : List (Ev D))
+    (h : (Commit.insertMany c now b es).1.isOk = true) :
+    (Commit.insertMany c now b es).2 =
+      Commit.condCommit (insertManyMid c now b es)
+        ((es.filter (fun e => e.id.isSome)).length + (es.filter (fun e => e.id.isNone)).length) now := by
+  rw [insertMany_snd, h]; rfl
+
+/-- the compact model of a failing `insert_many` against its literal statement sequence: the
+    UPDATEs executed before the failing bulk INSERT left the connection's view and every counter
+    where they were (they differ from `{ c with txn := true }` only in the ghost list `pend`, which
+    would record statements that wrote nothing) -/
+theorem failed_bulk_literal (c : CSt D) (now : Int) (b : String) (es : List (Ev D))
+    (h : (Commit.insertMany c now b es).1.isOk = false) :
+    let lit := (Commit.insertRows (upserts c now b (es.filter (fun e => e.id.isSome))) now b
+      (es.filter (fun e => e.id.isNone))).2
+    lit.cur = c.cur ∧ lit.dur = c.dur ∧ lit.n = c.n ∧ lit.last = c.last ∧ lit.lazy = c.lazy ∧ lit.txn = true := by
+  intro lit
+  have hf : bulkFails c.cur b es = true := by
+    have := insertMany_isOk_eq c now b es
+    rw [h] at this
+    simpa using this
+  have hr : Sqlite.rowOf c.cur b = none := by
+    simp only [bulkFails, Bool.and_eq_true, Option.isNone_iff_eq_none] at hf
+    exact hf.1
+  have hok := h
+  rw [insertMany_isOk] at hok
+  have e := insertRows_err _ now b _ hok
+  have hu := upserts_missing_noop c now b (es.filter (fun e => e.id.isSome)) hr
+  obtain ⟨u1, u2, u3, u4, _⟩ := upserts_fields c now b (es.filter (fun e => e.id.isSome))
+  refine ⟨?_, ?_, ?_, ?_, ?_, ?_⟩ <;> simp only [lit, e]
+  · exact hu
+  · exact u4
+  · exact u1
+  · exact u2
+  · exact u3
 
 theorem Pre.replace {s0 : Sqlite.St D} {h c} (p : Pre s0 h c) (now : Int) (b : String) (i : Int) (e : Ev D) :
     Pre s0 (h ++ [Sqlite.replace c.cur b i e]) (Commit.replace c now b i e) :=
@@ -239,7 +462,7 @@ theorem Pre.upserts {s0 : Sqlite.St D} {h c} (p : Pre s0 h c) (now : Int) (b : S
   induction ups generalizing h c with
   | nil => simpa [upsertStates] using p
   | cons e es ih =>
-    have q := p.replace now b (e.id.getD 0) e
+    have q := p.wrote (Sqlite.replace c.cur b (e.id.getD 0) e) now
     have := ih q
     rw [q.cur_eq, lastD_append_singleton, List.append_assoc] at this
     simpa [upsertStates] using this
@@ -259,12 +482,18 @@ theorem Pre.insertRows {s0 : Sqlite.St D} {h c} (p : Pre s0 h c) (now : Int) (b 
       rw [q.cur_eq, lastD_append_singleton, List.append_assoc] at this
       simpa [heq] using this
 
-theorem Pre.insertManyMid {s0 : Sqlite.St D} {h c} (p : Pre s0 h c) (now : Int) (b : String) (es : List (Ev D)) :
+theorem Pre.insertManyMid {s0 : Sqlite.St D} {h c} (p : Pre s0 h c) (now : Int) (b : String) (es : List (Ev D))
+    (hf : bulkFails c.cur b es = false) :
     Pre s0 (h ++ elems c.cur (.insertMany now b es)) (insertManyMid c now b es) := by
   have q := p.upserts now b (es.filter (fun e => e.id.isSome))
   have r := q.insertRows now b (es.filter (fun e => e.id.isNone))
   rw [q.cur_eq, lastD_append, ← p.cur_eq, List.append_assoc] at r
-  exact r
+  have e : elems c.cur (.insertMany now b es) =
+      upsertStates c.cur b (es.filter (fun e => e.id.isSome)) ++
+        rowStates (lastD c.cur (upsertStates c.cur b (es.filter (fun e => e.id.isSome)))) b
+          (es.filter (fun e => e.id.isNone)) := by
+    simp only [elems, hf]; rfl
+  rw [e]; exact r
 
 /-- one step extends the history by the step's elementary writes -/
 theorem Pre.step {s0 : Sqlite.St D} {h c} (p : Pre s0 h c) (op : COp D) :
@@ -290,12 +519,16 @@ theorem Pre.step {s0 : Sqlite.St D} {h c} (p : Pre s0 h c) (op : COp D) :
     | error x => simpa [cstep, Commit.insertOne, elems, heq] using p.setTxn
     | ok si => simpa [cstep, Commit.insertOne, elems, heq] using (p.wrote si.1 now).condCommit 1 now
   | insertMany now b es =>
-    have q := p.insertManyMid now b es
     simp only [cstep]
-    rw [insertMany_snd]
-    split
-    · exact q.condCommit _ now
-    · exact q
+    cases hf : bulkFails c.cur b es with
+    | false =>
+      have hok : (Commit.insertMany c now b es).1.isOk = true := by rw [insertMany_isOk_eq, hf]; rfl
+      rw [insertMany_ok _ _ _ _ hok]
+      exact (p.insertManyMid now b es hf).condCommit _ now
+    | true =>
+      have hok : (Commit.insertMany c now b es).1.isOk = false := by rw [insertMany_isOk_eq, hf]; rfl
+      rw [insertMany_err _ _ _ _ hok]
+      simpa [elems, hf] using p.setTxn
   | replace now b i e => exact p.replace now b i e
   | replaceLast now b e => exact (p.wrote _ now).condCommit 1 now
   | delete now b i => exact (p.wrote _ now).condCommit 1 now
@@ -377,108 +610,9 @@ theorem condCommit_count (c : CSt D) (k : Nat) (now : Int) (hn : c.n + k > 50) :
   · omega
 
 
-/-! ## the bulk INSERT of `insert_many` -/
-
-theorem insertRows_fields (c : CSt D) (now : Int) (b : String) (rows : List (Ev D)) :
-    (Commit.insertRows c now b rows).2.n = c.n ∧ (Commit.insertRows c now b rows).2.last = c.last ∧
-    (Commit.insertRows c now b rows).2.lazy = c.lazy ∧ (Commit.insertRows c now b rows).2.dur = c.dur ∧
-    (Commit.insertRows c now b rows).2.pend.length ≤ c.pend.length + rows.length ∧
-    (∀ t ∈ (Commit.insertRows c now b rows).2.pend, t = now ∨ t ∈ c.pend) := by
-  induction rows generalizing c with
-  | nil => exact ⟨rfl, rfl, rfl, rfl, by simp [Commit.insertRows], fun t ht => Or.inr ht⟩
-  | cons e es ih =>
-    cases heq : Sqlite.insertOne c.cur b e with
-    | error x =>
-      simp only [Commit.insertRows, heq]
-      exact ⟨trivial, trivial, trivial, trivial, by simp, fun t ht => Or.inr ht⟩
-    | ok si =>
-      simp only [Commit.insertRows, heq]
-      obtain ⟨h1, h2, h3, h4, h5, h6⟩ := ih (Commit.wrote c si.1 now)
-      refine ⟨h1, h2, h3, h4, ?_, ?_⟩
-      · simp [Commit.wrote] at h5 ⊢; omega
-      · intro t ht
-        have := h6 t ht
-        simpa [Commit.wrote] using this
-
-theorem insertOne_rowOf (s s' : Sqlite.St D) (b : String) (e : Ev D) (i : Int)
-    (h : Sqlite.insertOne s b e = .ok (s', i)) (b' : String) : Sqlite.rowOf s' b' = Sqlite.rowOf s b' := by
-  unfold Sqlite.insertOne at h
-  split at h
-  · simp at h
-  · simp only [Except.ok.injEq, Prod.mk.injEq] at h
-    rw [← h.1]; rfl
-
-/-- the bulk INSERT fails at its first row or not at all (the bucket row cannot vanish in between) -/
-theorem insertRows_isOk (c : CSt D) (now : Int) (b : String) (rows : List (Ev D))
-    (h : (Sqlite.rowOf c.cur b).isSome) : (Commit.insertRows c now b rows).1.isOk = true := by
-  induction rows generalizing c with
-  | nil => simp [Commit.insertRows, Except.isOk, Except.toBool]
-  | cons e es ih =>
-    cases heq : Sqlite.insertOne c.cur b e with
-    | error x =>
-      unfold Sqlite.insertOne at heq
-      split at heq
-      · rename_i hr; simp [hr] at h
-      · simp at heq
-    | ok si =>
-      simp only [Commit.insertRows, heq]
-      apply ih
-      simpa [Commit.wrote, insertOne_rowOf _ _ _ _ _ heq] using h
-
-theorem insertRows_err (c : CSt D) (now : Int) (b : String) (rows : List (Ev D))
-    (h : (Commit.insertRows c now b rows).1.isOk = false) :
-    (Commit.insertRows c now b rows).2 = { c with txn := true } := by
-  cases rows with
-  | nil => simp [Commit.insertRows, Except.isOk, Except.toBool] at h
-  | cons e es =>
-    cases hr : Sqlite.rowOf c.cur b with
-    | none => simp [Commit.insertRows, Sqlite.insertOne, hr]
-    | some r =>
-      have := insertRows_isOk c now b (e :: es) (by simp [hr])
-      simp [this] at h
-
-theorem insertMany_isOk (c : CSt D) (now : Int) (b : String) (es : List (Ev D)) :
-    (Commit.insertMany c now b es).1.isOk =
-      (Commit.insertRows (upserts c now b (es.filter (fun e => e.id.isSome))) now b
-        (es.filter (fun e => e.id.isNone))).1.isOk := by
-  have key : ∀ (k : Nat) (q : Except Err (CSt D) × CSt D),
-      (match q with
-        | (.error x, c2) => ((.error x : Except Err (CSt D)), c2)
-        | (.ok c2, _) => (.ok (Commit.condCommit c2 k now), Commit.condCommit c2 k now)).1.isOk = q.1.isOk := by
-    rintro k ⟨r, c2'⟩
-    cases r <;> simp [Except.isOk, Except.toBool]
-  exact key _ _
-
-/-- a failing `insert_many` has executed its upserts (with their conditional commits) and no row -/
-theorem insertMany_err (c : CSt D) (now : Int) (b : String) (es : List (Ev D))
-    (h : (Commit.insertMany c now b es).1.isOk = false) :
-    (Commit.insertMany c now b es).2 =
-      { upserts c now b (es.filter (fun e => e.id.isSome)) with txn := true } := by
-  rw [insertMany_snd, h]
-  rw [insertMany_isOk] at h
-  simpa [insertManyMid] using insertRows_err _ _ _ _ h
-
-theorem insertMany_ok (c : CSt D) (now : Int) (b : String) (es : List (Ev D))
-    (h : (Commit.insertMany c now b es).1.isOk = true) :
-    (Commit.insertMany c now b es).2 =
-      Commit.condCommit (insertManyMid c now b es) (es.filter (fun e => e.id.isNone)).length now := by
-  rw [insertMany_snd, h]; rfl
-
-
-theorem insertRows_txn (c : CSt D) (now : Int) (b : String) (rows : List (Ev D)) :
-    (Commit.insertRows c now b rows).2 = c ∨ (Commit.insertRows c now b rows).2.txn = true := by
-  induction rows generalizing c with
-  | nil => exact Or.inl rfl
-  | cons e es ih =>
-    cases heq : Sqlite.insertOne c.cur b e with
-    | error x => simp [Commit.insertRows, heq]
-    | ok si =>
-      simp only [Commit.insertRows, heq]
-      rcases ih (Commit.wrote c si.1 now) with h | h
-      · right; rw [h]; rfl
-      · exact Or.inr h
-
 /-! ## the shape of one step -/
+
+
 
 /-- a single event write is one statement followed by `conditional_commit(1)`, or (a failed
     `insert_one`) nothing but an opened transaction -/
@@ -529,14 +663,9 @@ theorem cstep_induct (J : CSt D → Prop) (now : Int)
     (h_ct : ∀ c, J c → J (Commit.commit { c with txn := true } now))
     (h_t : ∀ c, J c → J { c with txn := true })
     (h_c : ∀ c, J c → J (Commit.commit c now))
-    (h_bulk : ∀ c b rows, J c → (Commit.insertRows c now b rows).1.isOk = true →
-      J (Commit.condCommit (Commit.insertRows c now b rows).2 rows.length now))
+    (h_bulk : ∀ c b ups rows, J c → (Commit.insertRows (upserts c now b ups) now b rows).1.isOk = true →
+      J (Commit.condCommit (Commit.insertRows (upserts c now b ups) now b rows).2 (ups.length + rows.length) now))
     (c : CSt D) (op : COp D) (hn : op.now = now) (hc : J c) : J (cstep c op) := by
-  have h_ups : ∀ (ups : List (Ev D)) (b : String) c, J c → J (upserts c now b ups) := by
-    intro ups b
-    induction ups with
-    | nil => intro c hc; exact hc
-    | cons e es ih => intro c hc; exact ih _ (h_evw _ _ hc)
   cases op with
   | insertMany now' b es =>
     cases hn
@@ -545,10 +674,10 @@ theorem cstep_induct (J : CSt D → Prop) (now : Int)
     | true =>
       rw [insertMany_ok _ _ _ _ hok]
       rw [insertMany_isOk] at hok
-      exact h_bulk _ _ _ (h_ups _ _ _ hc) hok
+      exact h_bulk _ _ _ _ hc hok
     | false =>
       rw [insertMany_err _ _ _ _ hok]
-      exact h_t _ (h_ups _ _ _ hc)
+      exact h_t _ hc
   | read now' => cases hn; exact h_c _ hc
   | createBucket now' b m =>
     rcases bucket_form c (.createBucket now' b m) rfl with ⟨_, s, _, h⟩ | ⟨_, _, h | h | h⟩ <;>
@@ -584,9 +713,9 @@ theorem Bnd.step {c : CSt D} (hc : Bnd c) (op : COp D) : Bnd (cstep c op) := by
   · intro c ⟨h1, _, _⟩; exact ⟨h1, by simp [Commit.commit], by simp [Commit.commit]⟩
   · intro c h; exact h
   · intro c ⟨h1, _, _⟩; exact ⟨h1, by simp [Commit.commit], by simp [Commit.commit]⟩
-  · intro c b rows ⟨h1, h2, h3⟩ _
-    obtain ⟨f1, _, f3, _, f5, _⟩ := insertRows_fields c op.now b rows
-    rcases condCommit_cases (Commit.insertRows c op.now b rows).2 rows.length op.now with ⟨_, hl, h | h⟩
+  · intro c b ups rows ⟨h1, h2, h3⟩ _
+    obtain ⟨f1, _, f3, _, f5, _⟩ := mid_fields c op.now b ups rows
+    rcases condCommit_cases (Commit.insertRows (upserts c op.now b ups) op.now b rows).2 (ups.length + rows.length) op.now with ⟨_, hl, h | h⟩
     · exact ⟨by rw [hl, f3]; exact h1, by simp [h.2.1], by simp [h.2.2.1]⟩
     · refine ⟨by rw [hl, f3]; exact h1, ?_, ?_⟩
       · rw [h.2.1, h.2.2.1]; omega
@@ -598,20 +727,16 @@ theorem Bnd.run {c : CSt D} (hc : Bnd c) (ops : List (COp D)) : Bnd (crun c ops)
   | cons op ops ih => exact ih (hc.step op)
 
 /-- inside `insert_many` (after the upserts and the bulk INSERT, before the final conditional
-    commit) the bound is 50 + number of rows -/
+    commit) the bound is 50 + number of events of the call -/
 theorem Bnd.mid {c : CSt D} (hc : Bnd c) (now : Int) (b : String) (es : List (Ev D)) :
-    (insertManyMid c now b es).pend.length ≤ (insertManyMid c now b es).n + (es.filter (fun e => e.id.isNone)).length ∧
+    (insertManyMid c now b es).pend.length ≤ (insertManyMid c now b es).n +
+      ((es.filter (fun e => e.id.isSome)).length + (es.filter (fun e => e.id.isNone)).length) ∧
     (insertManyMid c now b es).n ≤ 50 := by
-  have hu : Bnd (upserts c now b (es.filter (fun e => e.id.isSome))) := by
-    generalize es.filter (fun e => e.id.isSome) = ups
-    induction ups generalizing c with
-    | nil => exact hc
-    | cons e es ih => exact ih (hc.step (.replace now b (e.id.getD 0) e))
-  obtain ⟨f1, _, _, _, f5, _⟩ := insertRows_fields (upserts c now b (es.filter (fun e => e.id.isSome))) now b
+  obtain ⟨f1, _, _, _, f5, _⟩ := mid_fields c now b (es.filter (fun e => e.id.isSome))
     (es.filter (fun e => e.id.isNone))
   unfold insertManyMid
   rw [f1]
-  exact ⟨by have := hu.2.1; omega, hu.2.2⟩
+  exact ⟨by have := hc.2.1; omega, hc.2.2⟩
 
 /-- eager store: everything executed is durable -/
 def Eager (c : CSt D) : Prop := c.lazy = false ∧ c.dur = c.cur ∧ c.pend = []
@@ -626,10 +751,10 @@ theorem Eager.step {c : CSt D} (hc : Eager c) (op : COp D) : Eager (cstep c op) 
   · intro c ⟨h1, _, _⟩; exact ⟨h1, rfl, rfl⟩
   · intro c h; exact h
   · intro c ⟨h1, _, _⟩; exact ⟨h1, rfl, rfl⟩
-  · intro c b rows ⟨h1, _, _⟩ _
-    obtain ⟨_, _, f3, _⟩ := insertRows_fields c op.now b rows
-    obtain ⟨hc', hl, _⟩ := condCommit_cases (Commit.insertRows c op.now b rows).2 rows.length op.now
-    obtain ⟨e1, e2, _⟩ := condCommit_eager (Commit.insertRows c op.now b rows).2 rows.length op.now (by rw [f3]; exact h1)
+  · intro c b ups rows ⟨h1, _, _⟩ _
+    obtain ⟨_, _, f3, _⟩ := mid_fields c op.now b ups rows
+    obtain ⟨hc', hl, _⟩ := condCommit_cases (Commit.insertRows (upserts c op.now b ups) op.now b rows).2 (ups.length + rows.length) op.now
+    obtain ⟨e1, e2, _⟩ := condCommit_eager (Commit.insertRows (upserts c op.now b ups) op.now b rows).2 (ups.length + rows.length) op.now (by rw [f3]; exact h1)
     exact ⟨by rw [hl, f3]; exact h1, by rw [e1, hc'], e2⟩
 
 theorem Eager.run {c : CSt D} (hc : Eager c) (ops : List (COp D)) : Eager (crun c ops) := by
@@ -650,11 +775,11 @@ theorem Clean.step {c : CSt D} (hc : Clean c) (op : COp D) : Clean (cstep c op) 
   · intro c _ _; exact ⟨rfl, rfl⟩
   · intro c _ ht; simp at ht
   · intro c _ _; exact ⟨rfl, rfl⟩
-  · intro c b rows h _ ht
-    rcases condCommit_cases (Commit.insertRows c op.now b rows).2 rows.length op.now with ⟨hc', _, h' | h'⟩
+  · intro c b ups rows h _ ht
+    rcases condCommit_cases (Commit.insertRows (upserts c op.now b ups) op.now b rows).2 (ups.length + rows.length) op.now with ⟨hc', _, h' | h'⟩
     · exact ⟨by rw [h'.1, hc'], h'.2.1⟩
     · rw [h'.2.2.2.2.1] at ht
-      rcases insertRows_txn c op.now b rows with e | e
+      rcases mid_txn c op.now b ups rows with e | e
       · rw [e] at ht h' hc' ⊢
         rw [h'.1, h'.2.1, hc']; exact h ht
       · rw [e] at ht; simp at ht
@@ -705,9 +830,9 @@ theorem Young.step {clk : Int} {c : CSt D} (hc : Young clk c) (op : COp D) (hk :
   · intro c _; exact ⟨by simp [Commit.commit], by simp [Commit.commit]⟩
   · intro c h; exact h
   · intro c _; exact ⟨by simp [Commit.commit], by simp [Commit.commit]⟩
-  · intro c b rows ⟨h1, h2⟩ _
-    obtain ⟨_, f2, _, _, _, f6⟩ := insertRows_fields c op.now b rows
-    rcases condCommit_cases (Commit.insertRows c op.now b rows).2 rows.length op.now with ⟨_, _, h | h⟩
+  · intro c b ups rows ⟨h1, h2⟩ _
+    obtain ⟨_, f2, _, _, _, f6⟩ := mid_fields c op.now b ups rows
+    rcases condCommit_cases (Commit.insertRows (upserts c op.now b ups) op.now b rows).2 (ups.length + rows.length) op.now with ⟨_, _, h | h⟩
     · exact ⟨by rw [h.2.2.2.1]; omega, by rw [h.2.1]; simp⟩
     · refine ⟨by rw [h.2.2.2.1, f2]; exact h1, ?_⟩
       rw [h.2.1, h.2.2.2.1, f2]
@@ -725,60 +850,7 @@ theorem Young.run {clk : Int} {c : CSt D} (hc : Young clk c) (ops : List (COp D)
   | cons op ops ih => exact ih (hc.step op hm.1) hm.2
 
 
-/-! ## `insert_many` after its first upsert; single operations -/
-
-def insertManyFrom (c : CSt D) (now : Int) (b : String) (ups rows : List (Ev D)) :
-    Except Err (CSt D) × CSt D :=
-  match Commit.insertRows (upserts c now b ups) now b rows with
-  | (.error x, c2) => (.error x, c2)
-  | (.ok c2, _) => (.ok (Commit.condCommit c2 rows.length now), Commit.condCommit c2 rows.length now)
-
-theorem insertMany_eq_from (c : CSt D) (now : Int) (b : String) (es : List (Ev D)) :
-    Commit.insertMany c now b es =
-      insertManyFrom c now b (es.filter (fun e => e.id.isSome)) (es.filter (fun e => e.id.isNone)) := rfl
-
-/-- `insert_many` whose first upsert is `e` is that upsert (a `replace` with its own conditional
-    commit) followed by `insert_many` of the remaining upserts and the rows -/
-theorem insertMany_first_upsert (c : CSt D) (now : Int) (b : String) (es : List (Ev D))
-    (e : Ev D) (rest : List (Ev D)) (h : es.filter (fun e => e.id.isSome) = e :: rest) :
-    Commit.insertMany c now b es =
-      Commit.insertMany (Commit.replace c now b (e.id.getD 0) e) now b
-        (rest ++ es.filter (fun e => e.id.isNone)) := by
-  have hr : ∀ x ∈ rest, x.id.isSome = true := by
-    intro x hx
-    have : x ∈ es.filter (fun e => e.id.isSome) := by rw [h]; exact List.mem_cons_of_mem _ hx
-    exact (List.mem_filter.mp this).2
-  have e1 : (rest ++ es.filter (fun e => e.id.isNone)).filter (fun e => e.id.isSome) = rest := by
-    rw [List.filter_append, List.filter_filter]
-    have : List.filter (fun a => a.id.isSome && a.id.isNone) es = [] := by
-      apply List.filter_eq_nil_iff.mpr
-      intro a _; cases a.id <;> simp
-    rw [this, List.append_nil]
-    exact List.filter_eq_self.mpr hr
-  have e2 : (rest ++ es.filter (fun e => e.id.isNone)).filter (fun e => e.id.isNone) =
-      es.filter (fun e => e.id.isNone) := by
-    rw [List.filter_append, List.filter_filter]
-    have : List.filter (fun e => e.id.isNone) rest = [] := by
-      apply List.filter_eq_nil_iff.mpr
-      intro a ha; have := hr a ha; cases h' : a.id <;> simp [h'] at this ⊢
-    rw [this, List.nil_append]
-    congr 1; funext a; simp
-  rw [insertMany_eq_from, insertMany_eq_from, h, e1, e2]
-  rfl
-
-/-- the elementary writes of that `insert_many`, split the same way -/
-theorem elems_insertMany_first_upsert (s : Sqlite.St D) (now : Int) (b : String) (es : List (Ev D))
-    (e : Ev D) (rest : List (Ev D)) (h : es.filter (fun e => e.id.isSome) = e :: rest) :
-    elems s (.insertMany now b es) =
-      Sqlite.replace s b (e.id.getD 0) e ::
-        upsertStates (Sqlite.replace s b (e.id.getD 0) e) b rest ++
-        rowStates (lastD (Sqlite.replace s b (e.id.getD 0) e) (upsertStates (Sqlite.replace s b (e.id.getD 0) e) b rest)) b
-          (es.filter (fun e => e.id.isNone)) := by
-  simp only [elems, h, upsertStates, List.cons_append]
-  congr 2
-  cases hh : upsertStates (Sqlite.replace s b (e.id.getD 0) e) b rest with
-  | nil => simp [lastD]
-  | cons x xs => simp [lastD, List.getLast?_cons_cons, List.getLast?_eq_some_getLast (l := x :: xs) (by simp)]
+/-! ## single operations -/
 
 /-- a single event write leaves `dur` where it was or moves it to the new `cur` -/
 theorem evw_atomic (c : CSt D) (s : Sqlite.St D) (now : Int) :
@@ -821,33 +893,41 @@ theorem cstep_lazy (c : CSt D) (op : COp D) : (cstep c op).lazy = c.lazy := by
   · intro c' h; exact h
   · intro c' h; exact h
   · intro c' h; exact h
-  · intro c' b rows h _
-    rw [(condCommit_cases _ _ op.now).2.1, (insertRows_fields c' op.now b rows).2.2.1]; exact h
+  · intro c' b ups rows h _
+    rw [(condCommit_cases _ _ op.now).2.1, (mid_fields c' op.now b ups rows).2.2.1]; exact h
 
 theorem insertManyMid_lazy (c : CSt D) (now : Int) (b : String) (es : List (Ev D)) :
     (insertManyMid c now b es).lazy = c.lazy := by
-  have hu : ∀ (ups : List (Ev D)) (c : CSt D), (upserts c now b ups).lazy = c.lazy := by
-    intro ups
-    induction ups with
-    | nil => intro c; rfl
-    | cons e es ih => intro c; rw [upserts_cons, ih]; exact cstep_lazy c (.replace now b (e.id.getD 0) e)
-  rw [insertManyMid, (insertRows_fields _ now b _).2.2.1]
-  exact hu _ _
+  rw [insertManyMid]; exact (mid_fields c now b _ _).2.2.1
 
 /-- an event-write operation that returns ends with a `conditional_commit` at its clock reading -/
-theorem evwrite_form (c : CSt D) (op : COp D) (h : op.isEventWrite = true) (hok : cok c op = true) :
-    ∃ m k, cstep c op = Commit.condCommit m k op.now ∧ m.lazy = c.lazy := by
+theorem evwrite_form' (c : CSt D) (op : COp D) (h : op.isEventWrite = true) (hok : cok c op = true) :
+    ∃ m k, cstep c op = Commit.condCommit m k op.now ∧ m.lazy = c.lazy ∧ m.last = c.last := by
   cases op with
   | insertMany now b es =>
-    exact ⟨_, _, insertMany_ok _ _ _ _ hok, insertManyMid_lazy c now b es⟩
+    exact ⟨_, _, insertMany_ok _ _ _ _ hok, insertManyMid_lazy c now b es,
+      by rw [insertManyMid]; exact (mid_fields c now b _ _).2.1⟩
   | insertOne now b e =>
     rcases single_form c (.insertOne now b e) rfl with ⟨_, s, _, e'⟩ | ⟨e', _⟩
-    · exact ⟨_, _, e', rfl⟩
+    · exact ⟨_, _, e', rfl, rfl⟩
     · rw [e'] at hok; cases hok
-  | replace now b i e => exact ⟨_, _, rfl, rfl⟩
-  | replaceLast now b e => exact ⟨_, _, rfl, rfl⟩
-  | delete now b i => exact ⟨_, _, rfl, rfl⟩
+  | replace now b i e => exact ⟨_, _, rfl, rfl, rfl⟩
+  | replaceLast now b e => exact ⟨_, _, rfl, rfl, rfl⟩
+  | delete now b i => exact ⟨_, _, rfl, rfl, rfl⟩
   | _ => simp [COp.isEventWrite] at h
+
+theorem evwrite_form (c : CSt D) (op : COp D) (h : op.isEventWrite = true) (hok : cok c op = true) :
+    ∃ m k, cstep c op = Commit.condCommit m k op.now ∧ m.lazy = c.lazy := by
+  obtain ⟨m, k, e, hl, _⟩ := evwrite_form' c op h hok
+  exact ⟨m, k, e, hl⟩
+
+/-- `conditional_commit` leaves `dur` where it was or moves it to `cur` -/
+theorem condCommit_atomic (m : CSt D) (k : Nat) (now : Int) :
+    (Commit.condCommit m k now).dur = m.dur ∨
+    (Commit.condCommit m k now).dur = (Commit.condCommit m k now).cur := by
+  rcases condCommit_cases m k now with ⟨hc, _, h | h⟩
+  · right; rw [h.1, hc]
+  · left; rw [h.1]
 
 
 /-! ## concrete states for the non-vacuity examples -/
